@@ -1,0 +1,17 @@
+//go:build !verif
+
+package api
+
+// VerifCrashAt selects the durable write before which VerifCrashPoint simulates a crash when the
+// package is built with the verif build tag; without the tag it is never consulted.
+var VerifCrashAt int
+
+// VerifCrashed reports whether a crash was simulated (verif build tag only).
+var VerifCrashed bool
+
+// VerifCrashPoint marks a point right before a durable write (a batch flush or a metadata commit)
+// of a node database. Without the verif build tag it does nothing.
+func VerifCrashPoint() {}
+
+// VerifCrashReset resets the crash point counter (verif build tag only).
+func VerifCrashReset() {}
